@@ -236,7 +236,7 @@ def _sec_within(ctx):
             and isinstance(n.left, ast.Call) and dotted(n.left.func) == 'len' and n.left.args]
     if len(lens) == 1:
         pv = flow.provenance(fi.node, lens[0].left.args[0])
-        ctx.check('cleanup_desc' in flow.prov_calls(pv), 'ORDER',
+        ctx.check(common.cleanup_name(ctx) in {c_.split('.')[-1] for c_ in flow.prov_calls(pv)}, 'ORDER',
                   'sec_within measures the cleaned-up block against the minimum length',
                   detail_bad="the length gate sees the raw block (cleanup_desc runs after it): connector words such "
                              "as ' of ' / ', in ' between the section and an embedded Twp/Rge are spliced into the description",
